@@ -189,9 +189,14 @@ func (e *Exec) callFn(fr *frame, st *State, c *ssa.CallCommon, fn *ssa.Function,
 			*e.modCollect = append(*e.modCollect, &Ptr{Kind: pModMap, Ref: m, Root: sig.Params().At(0).Type(), Type: sig.Params().At(0).Type()})
 		}
 		return &Tuple{}, true
+	case "vcByteStr":
+		return app(SStr, "sbyte", e.asTerm(st, args[0], types.Typ[types.Uint8])), true
 	case "vcFresh":
 		old := e.curOld()
-		t := e.asTerm(st, args[0], types.Typ[types.Int])
+		t := e.asTerm(st, args[0], sig.Params().At(0).Type())
+		if t.Sort == SSlice {
+			t = slArr(t)
+		}
 		if old == nil {
 			return tTrue, true
 		}
@@ -479,6 +484,10 @@ func (e *Exec) modularCall(st *State, ct *Contract, sig *types.Signature, args [
 		st.alloc = na
 	}
 	var res Value
+	if ct.Pure && pureScalar(sig) {
+		e.pureAxioms(ct, sig)
+		return e.pureResult(st, ct, sig, targs), true
+	}
 	if ct.Pure && len(ct.Ensures) >= 0 && sig.Results().Len() == 1 && e.pureApp(ct) {
 		res = e.pureResult(st, ct, sig, targs)
 	} else {
@@ -539,6 +548,86 @@ func (e *Exec) pureResult(st *State, ct *Contract, sig *types.Signature, args []
 		e.assume(st, e.wellTyped(st, sig.Results().At(0).Type(), r))
 	}
 	return r
+}
+
+// pureAxiomatizable: all parameters and the result are heap-independent scalars.
+func pureScalar(sig *types.Signature) bool {
+	ok := func(t types.Type) bool {
+		switch u := t.Underlying().(type) {
+		case *types.Basic:
+			return u.Info()&(types.IsInteger|types.IsBoolean|types.IsString) != 0
+		}
+		return false
+	}
+	if sig.Recv() != nil && !ok(sig.Recv().Type()) {
+		return false
+	}
+	for i := 0; i < sig.Params().Len(); i++ {
+		if !ok(sig.Params().At(i).Type()) {
+			return false
+		}
+	}
+	return sig.Results().Len() == 1 && ok(sig.Results().At(0).Type())
+}
+
+// pureAxioms emits, once, the universally quantified form of a pure scalar contract:
+// forall args. pre(args) => post(args, f(args)), triggered on f(args).
+func (e *Exec) pureAxioms(ct *Contract, sig *types.Signature) {
+	key := "pureax:" + ct.Key
+	if e.smt.axiomDone[key] {
+		return
+	}
+	e.smt.axiomDone[key] = true
+	var bound []string
+	var args []Value
+	var sorts []string
+	var ranges []Term
+	add := func(name string, t types.Type) {
+		s := e.ti.sortOf(t)
+		nm := e.smt.freshName("a." + name)
+		bound = append(bound, fmt.Sprintf("(%s %s)", nm, s))
+		v := Term{nm, s}
+		args = append(args, v)
+		sorts = append(sorts, s)
+		if rf := rangeFact(t, v); rf.S != "true" {
+			ranges = append(ranges, rf)
+		}
+	}
+	if sig.Recv() != nil {
+		add("recv", sig.Recv().Type())
+	}
+	for i := 0; i < sig.Params().Len(); i++ {
+		add(sig.Params().At(i).Name(), sig.Params().At(i).Type())
+	}
+	rs := e.ti.sortOf(sig.Results().At(0).Type())
+	f := "pf." + smtIdent(strings.TrimPrefix(ct.Key, repoModule+"/"))
+	e.smt.declareFun(f, sorts, rs)
+	var ts []Term
+	for _, a := range args {
+		ts = append(ts, a.(Term))
+	}
+	res := app(rs, f, ts...)
+	st := &State{pc: tTrue, cells: map[*Cell]Value{}, heap: map[string]Term{}, locks: map[string]int{}, alloc: tInt(0)}
+	e.quant++
+	var pres, posts []Term
+	for _, cl := range ct.Requires {
+		if g, ok := e.evalSpec(st, ct.PkgPath, cl.GenFn, args, st); ok {
+			pres = append(pres, g)
+		}
+	}
+	all := append(append([]Value{}, args...), res)
+	for _, cl := range ct.Ensures {
+		if g, ok := e.evalSpec(st, ct.PkgPath, cl.GenFn, all, st); ok {
+			posts = append(posts, g)
+		}
+	}
+	e.quant--
+	posts = append(posts, rangeFact(sig.Results().At(0).Type(), res))
+	body := tImp(tAnd(append(ranges, pres...)...), tAnd(posts...))
+	if body.S == "true" {
+		return
+	}
+	e.smt.axioms = append(e.smt.axioms, fmt.Sprintf("(assert (forall (%s) (! %s :pattern (%s))))", strings.Join(bound, " "), body.S, res.S))
 }
 
 // invoke: interface method call, by interface contract.
